@@ -6,10 +6,12 @@ from ast import AST, ClassDef, FunctionDef, Module
 from collections import OrderedDict
 from os import path
 
+from black import Mode, format_str
+
 from doctrans import emit, parse
 from doctrans.ast_utils import RewriteAtQuery, find_in_ast, get_function_type
 from doctrans.pure_utils import pluralise, strip_split
-from doctrans.source_transformer import ast_parse
+from doctrans.source_transformer import ast_parse, to_code
 
 
 def cmp_ast(node1, node2):
@@ -37,6 +39,31 @@ def cmp_ast(node1, node2):
             for field in node1._fields
         )
     return node1 == node2
+
+
+def _as_written(node):
+    """
+    The node as it reads back after `emit.file` has written it (formatting re-indents docstrings),
+    so that a definition this module wrote itself compares equal on the next run
+
+    :param node: AST node about to be written
+    :type node: ```Union[ClassDef, FunctionDef]```
+
+    :returns: AST node as `ast_parse` would read it from the written file
+    :rtype: ```Union[ClassDef, FunctionDef]```
+    """
+    return ast_parse(
+        format_str(
+            to_code(Module(body=[node], type_ignores=[], stmt=None)),
+            mode=Mode(
+                target_versions=set(),
+                line_length=119,
+                is_pyi=False,
+                string_normalization=False,
+            ),
+        ),
+        skip_annotate=True,
+    ).body[0]
 
 
 def _default_options(node, search, type_wanted):
@@ -207,7 +234,9 @@ def _conform_filename(
     )
 
     replaced = False
-    if not cmp_ast(original_node, replacement_node):
+    if not cmp_ast(original_node, replacement_node) and not cmp_ast(
+        original_node, _as_written(replacement_node)
+    ):
         rewrite_at_query = RewriteAtQuery(
             search=search,
             replacement_node=replacement_node,
